@@ -23,8 +23,16 @@ fn report_dir() -> String {
 // an .init_array constructor runs before std's start-up code.
 static mut EARLY_IGN: u64 = 0;
 static mut EARLY_BLK: u64 = 0;
+// which of the descriptors 0-2 were open when the program was started: the Rust runtime opens /dev/null on the
+// closed ones before `main`, which must not be mistaken for what the parent handed over
+static mut EARLY_CLOSED: u8 = 0;
 extern "C" fn early() {
     unsafe {
+        for fd in 0..3 {
+            if libc::fcntl(fd, libc::F_GETFD) == -1 {
+                EARLY_CLOSED |= 1 << fd;
+            }
+        }
         let mut blk: u64 = 0;
         libc::syscall(libc::SYS_rt_sigprocmask, libc::SIG_BLOCK, std::ptr::null::<u64>(), &mut blk as *mut u64, 8usize);
         EARLY_BLK = blk;
@@ -73,6 +81,9 @@ fn report() {
             };
             if target.starts_with("/proc/") && target.ends_with("/fd") {
                 continue; // the directory handle used for this listing
+            }
+            if fd < 3 && unsafe { EARLY_CLOSED } & (1 << fd) != 0 {
+                continue; // closed when we were started; what sits there now is the runtime's /dev/null
             }
             let mut st: libc::stat = unsafe { std::mem::zeroed() };
             let ok = unsafe { libc::fstat(fd, &mut st) } == 0;
